@@ -6,6 +6,7 @@ import (
 	"fmt"
 	"os"
 
+	_ "verif/sim/engines/c02"
 	_ "verif/sim/engines/c20"
 	"verif/sim/harness"
 )
